@@ -928,6 +928,14 @@ class Exec:
             try: self.assume(z3.Implies(b_, veq(a, b)))
             except Unsupported: pass
             return b_
+        IMM = (TMap, TSet, TSeq, TRec, TTuple)
+        if not self.spec and (isinstance(ta, IMM) or (isinstance(ta, TOpt) and isinstance(ta.inner, IMM))) and (isinstance(tb, IMM) or (isinstance(tb, TOpt) and isinstance(tb.inner, IMM))):
+            # the same with an optional operand (e.g. the result of dict.get): identical implies "neither is None and the values are equal", or both None
+            self.vf.note_assumption('`is` between immutable values (maps / tuples) is an arbitrary boolean that implies equality')
+            b_ = fresh('same', z3.BoolSort())
+            try: self.assume(z3.Implies(b_, veq(a, b)))
+            except Unsupported: pass
+            return b_
         raise Unsupported('`is` on values of type %r / %r (identity of immutable values is not modelled)' % (ta, tb))
 
     def contains(self, c, x):
@@ -1491,7 +1499,10 @@ class Exec:
                 if isinstance(ty, TRef): return self.alloc(ty)
         if not self.spec and (self.w.ext_funcs or self.frame.get('ext_funcs')):
             txt = ast.unparse(n.func)
-            if txt in (self.frame.get('ext_funcs') or {}):
+            c_ = self.frame.get('contract')
+            if c_ is not None and txt in c_.hints.get('use_contract', ()):      # this caller is verified against the callee's VERIFIED contract, not the assumed one of the same name
+                f = self.eval(n.func)
+            elif txt in (self.frame.get('ext_funcs') or {}):
                 f = ExtMethod(None, txt)
             elif txt in self.w.ext_funcs:
                 f = ExtMethod(None, txt)
@@ -2116,6 +2127,9 @@ class Exec:
     def s_FunctionDef(self, st):
         self.frame.setdefault('local_funcs', {})[st.name] = FuncRef(self.frame['rel'], self.vf.qual_of_nested(self.frame, st), st)
     def s_AnnAssign(self, st):
+        bags = (self.frame.get('contract').hints.get('kwdict_vars', ()) if self.frame.get('contract') is not None else ())
+        if bags and st.value is not None and isinstance(st.target, ast.Name) and st.target.id in bags and isinstance(st.value, (ast.Dict, ast.DictComp)):
+            self.st.env[st.target.id] = self.kwdict_of(st.value); return      # (an annotated keyword bag: same treatment as in s_Assign)
         if st.value is not None: self.assign(st.target, self.eval(st.value), ann=st.annotation)
     def s_Assign(self, st):
         bags = (self.frame.get('contract').hints.get('kwdict_vars', ()) if self.frame.get('contract') is not None else ())
